@@ -215,3 +215,17 @@ Theorem C09_request_sections :
   forall t, LockDiscipline.trace_of s t -> SectionShape.sections_ok (SectionShape.mode_of_method name) t.
 Proof. exact C09Skeleton.requests_sections_ok. Qed.
 Print Assumptions C09_request_sections.
+
+(* The hypothesis of C09_serializable, as a checked fact about the source: every do_* handler on its own has ONE
+   critical section, in the mode the model uses, containing ALL its storage events, and under the exclusive lock
+   it re-reads before it writes.  (A handler that tests under one lock and acts under another is rejected.) *)
+Theorem C09_handler_checker_sound : forall hm s, SectionShape.check09h hm s = true ->
+  forall t, LockDiscipline.trace_of s t -> SectionShape.one_section_ok hm t.
+Proof. exact C09Skeleton.check09h_sound. Qed.
+Print Assumptions C09_handler_checker_sound.
+
+Theorem C09_handlers_one_section :
+  forall name s, In (name, s) Skeleton.handlers ->
+  forall t, LockDiscipline.trace_of s t -> SectionShape.one_section_ok (SectionShape.mode_of_method name) t.
+Proof. exact C09Skeleton.handlers_one_section. Qed.
+Print Assumptions C09_handlers_one_section.
